@@ -16,6 +16,22 @@ from .values import *  # noqa
 from .interp import (Unsupported, RaiseEx, zand, zor, znot, zite, zmin, zmax, FuncVal, Frame)
 
 
+class KeysView:
+    """dict.keys(): a LIVE view of the keys (later insertions / deletions are visible through it)"""
+
+    def __init__(self, d):
+        self.d = d
+
+    def __vf_iter__(self, I):
+        return list(self.d.keys())
+
+    def __vf_len__(self, I):
+        return len(self.d)
+
+    def __vf_contains__(self, I, x):
+        return contains(I, self.d, x)
+
+
 class DDict(dict):
     """collections.defaultdict: a dict whose missing keys are created by `factory` on lookup"""
     factory = None
@@ -143,6 +159,8 @@ def getitem(I, o, k):
             return I.call_func(FuncVal(m, o, cls_ctx=m.cls), [k], {})
     if isinstance(o, IntTensorConst):
         return getitem(I, o.values, k)
+    if isinstance(o, ClassVal):
+        return o  # Generic[T] subscription: type parameters carry no run-time meaning
     h = getattr(o, "__vf_getitem__", None)
     if h is not None:
         return h(I, k)
@@ -567,6 +585,9 @@ def compare(I, op, a, b):
         a = a.seq
     if isinstance(b, IterVal):
         b = b.seq
+    if t in (ast.In, ast.NotIn):
+        r = contains(I, b, a)
+        return r if t is ast.In else znot(r)
     for x in (a, b):
         h = getattr(x, "__vf_compare__", None)
         if h is not None:
@@ -668,6 +689,9 @@ def equal(I, a, b):
 
 
 def contains(I, cont, x):
+    h = getattr(cont, "__vf_contains__", None)
+    if h is not None:
+        return h(I, x)
     if isinstance(cont, SymSet):
         return z3.Select(cont.arr, to_z3(x))
     if isinstance(cont, SymSeq):
@@ -793,7 +817,30 @@ def getattr_(I, o, name):
     h = getattr(o, "__vf_getattr__", None)
     if h is not None:
         return h(I, name)
+    if isinstance(o, FuncVal) and name == "__annotations__":
+        # the annotations of a function of the repo, evaluated in its module: classes become class values, anything the
+        # subset cannot evaluate (Protocol types, unions, strings) becomes an opaque marker
+        ann = {}
+        a = o.info.node.args
+        for arg in a.posonlyargs + a.args + a.kwonlyargs:
+            if arg.annotation is not None:
+                ann[arg.arg] = _eval_annotation(I, o.info.module, arg.annotation)
+        if o.info.node.returns is not None:
+            ann["return"] = _eval_annotation(I, o.info.module, o.info.node.returns)
+        return ann
+    if isinstance(o, FuncVal) and name == "__name__":
+        return o.info.name
     raise Unsupported(f"attribute {name} of {type(o).__name__}")
+
+
+def _eval_annotation(I, mi, expr):
+    try:
+        if isinstance(expr, ast.Constant) and isinstance(expr.value, str):
+            expr = ast.parse(expr.value, mode="eval").body
+        v = _eval_in_module(I, mi, expr)
+        return v if isinstance(v, ClassVal) else Opaque("annotation")
+    except (Unsupported, SyntaxError):
+        return Opaque("annotation")
 
 
 def _eval_in_module(I, mi, expr):
@@ -818,7 +865,7 @@ def _dict_method(I, d, name):
     if name == "items":
         return BoundBuiltin(lambda: [(k, v) for k, v in d.items()])
     if name == "keys":
-        return BoundBuiltin(lambda: list(d.keys()))
+        return BoundBuiltin(lambda: KeysView(d))
     if name == "values":
         return BoundBuiltin(lambda: list(d.values()))
     if name == "get":
@@ -1097,6 +1144,8 @@ def make_builtins(I):
         h = getattr(v, "__vf_isinstance__", None)
         if h is not None:
             return h(I, t)
+        if name == "type":
+            return isinstance(v, ClassVal)
         if name == "int":
             return is_intlike(v) or isinstance(v, bool)
         if name == "bool":
